@@ -35,7 +35,6 @@ inductive Resp
   | pending                      -- the stream has nothing to deliver now
   | ended                        -- the stream is over
   | noWatcher                    -- `next` / `drop` on a slot that holds no stream
-  | panic                        -- the `expect` in `set_service_status` fired
 deriving DecidableEq, Repr
 
 /-- An event of a history: an operation together with its answer. -/
